@@ -87,6 +87,47 @@ JOBS = {
     "md_ksa_h2o_b": {"kind": "md", "engine": "ksa", "mol": "H2O", "gs": 50, "sett": _s("AM1", 1e-7, [2]), "sig": "m4",
                      "steps": 3, "dt": 0.4, "Temp": 300.0, "seed": 10, "k": 5},
     "opt_sd_h2o_b": {"kind": "opt", "mol": "H2O", "gs": 55, "sett": _s("AM1", 1e-8, [2]), "sig": "o1", "steps": 3, "alpha": 2e-3},
+    # run options that carry state on the engine object (velocity rescaling / energy-shift reference); "_b" = second
+    # trajectory of the same engine template from another geometry and seed, i.e. with another initial total energy
+    "md_shift_h2o": {"kind": "md", "engine": "basic", "mol": "H2O", "gs": 61, "sett": _s("AM1", 1e-8, [2]), "sig": "m5",
+                     "steps": 4, "dt": 0.5, "Temp": 300.0, "seed": 21, "run_kw": {"control_energy_shift": True}},
+    "md_shift_h2o_b": {"kind": "md", "engine": "basic", "mol": "H2O", "gs": 62, "sett": _s("AM1", 1e-8, [2]), "sig": "m5",
+                       "steps": 4, "dt": 0.5, "Temp": 300.0, "seed": 22, "run_kw": {"control_energy_shift": True},
+                       "sigma": 0.12},
+    "md_scale_nh3": {"kind": "md", "engine": "basic", "mol": "NH3", "gs": 63, "sett": _s("PM3", 1e-8, [2]), "sig": "m6",
+                     "steps": 4, "dt": 0.5, "Temp": 200.0, "seed": 23, "run_kw": {"scale_vel": [2, 350.0]}},
+    "md_scale_nh3_b": {"kind": "md", "engine": "basic", "mol": "NH3", "gs": 64, "sett": _s("PM3", 1e-8, [2]), "sig": "m6",
+                       "steps": 4, "dt": 0.5, "Temp": 200.0, "seed": 24, "run_kw": {"scale_vel": [2, 350.0]}, "sigma": 0.12},
+    "md_xlshift_h2o": {"kind": "md", "engine": "xl", "mol": "H2O", "gs": 65, "sett": _s("AM1", 1e-7, [2]), "sig": "m7",
+                       "steps": 4, "dt": 0.4, "Temp": 300.0, "seed": 25, "k": 5, "run_kw": {"control_energy_shift": True}},
+    "md_xlshift_h2o_b": {"kind": "md", "engine": "xl", "mol": "H2O", "gs": 66, "sett": _s("AM1", 1e-7, [2]), "sig": "m7",
+                         "steps": 4, "dt": 0.4, "Temp": 300.0, "seed": 26, "k": 5, "run_kw": {"control_energy_shift": True},
+                         "sigma": 0.12},
+    "md_lshift_nh3": {"kind": "md", "engine": "langevin", "mol": "NH3", "gs": 67, "sett": _s("PM3", 1e-7, [1]), "sig": "m8",
+                      "steps": 3, "dt": 0.5, "Temp": 400.0, "seed": 27, "damp": 20.0, "run_kw": {"control_energy_shift": True}},
+    "md_lshift_nh3_b": {"kind": "md", "engine": "langevin", "mol": "NH3", "gs": 68, "sett": _s("PM3", 1e-7, [1]), "sig": "m8",
+                        "steps": 3, "dt": 0.5, "Temp": 400.0, "seed": 28, "damp": 20.0,
+                        "run_kw": {"control_energy_shift": True}, "sigma": 0.12},
+    # rarely used options that bring their own tables / module state
+    # AM1 + dispersion: non-bonded dimers (separation > 3 A), same largest Z but different element sets
+    "disp_h2o_dimer": {"kind": "sp", "mol": ["H2O", [3.1, 0.6, 0.4]], "dimer": True, "gs": 71,
+                       "sett": _s("AM1", 1e-8, [2], dispersion=True), "sig": "d1"},
+    "disp_ch2o_dimer": {"kind": "sp", "mol": ["CH2O", [3.5, 0.3, 0.2]], "dimer": True, "gs": 72,
+                        "sett": _s("AM1", 1e-8, [2], dispersion=True), "sig": "d1"},
+    "disp_hcn_dimer": {"kind": "sp", "mol": ["HCN", [0.4, 3.4, 0.3]], "dimer": True, "gs": 73,
+                       "sett": _s("AM1", 1e-8, [2], dispersion=True), "sig": "d1"},
+    "disp_nh3_dimer": {"kind": "sp", "mol": ["NH3", [3.3, 0.2, 0.5]], "dimer": True, "gs": 74,
+                       "sett": _s("AM1", 1e-8, [2], dispersion=True), "sig": "d1"},
+    "disp_batch": {"kind": "sp", "mol": [["H2O", [3.1, 0.5, 0.3]], ["HCN", [0.3, 3.4, 0.4]], ["CH2O", [3.5, 0.2, 0.3]]],
+                   "dimer_batch": True, "gs": 75, "sett": _s("AM1", 1e-7, [2], dispersion=True), "sig": "d2"},
+    "am1_dimer_cutoff": {"kind": "sp", "mol": ["H2O", [3.1, 0.6, 0.4]], "dimer": True, "gs": 76,
+                         "sett": _s("AM1", 1e-8, [2], pair_outer_cutoff=2.6), "sig": "c1"},
+    "am1_h2o_hfflag": {"kind": "sp", "mol": "H2O", "gs": 77, "sett": _s("AM1", 1e-8, [2], Hf_flag=False), "sig": "f1"},
+    "am1_h2o_noeig": {"kind": "sp", "mol": "H2O", "gs": 78, "sett": _s("AM1", 1e-8, [2], eig=False), "sig": "e1"},
+    "pm3_h2o_altparams": {"kind": "sp", "mol": "H2O", "gs": 11, "sett": _s("PM3", 1e-8, [2], parameter_file_dir="<ALT>"),
+                          "sig": "p1", "altparams": {"Z": 8, "column": "U_ss", "delta": 0.5}},
+    "am1_h2o_learned": {"kind": "sp", "mol": "H2O", "gs": 11, "sett": _s("AM1", 1e-8, [2], learned=["beta_s", "g_ss"]),
+                        "sig": "l1", "learned": ["beta_s", "g_ss"], "learned_scale": 1.02},
     "xl_eval_ch2o": {"kind": "xl", "mol": "CH2O", "gs": 44, "sett": _s("AM1", 1e-9, [2]), "sig": "x1"},
     "opt_sd_h2o": {"kind": "opt", "mol": "H2O", "gs": 45, "sett": _s("AM1", 1e-8, [2]), "sig": "o1", "steps": 3, "alpha": 2e-3},
     # --- calls that must raise (C18 inputs) -- history noise and targets
@@ -98,6 +139,9 @@ JOBS = {
 }
 GRAD_JOBS = [k for k, v in JOBS.items() if v["kind"] == "grad"]
 ENGINE_JOBS = [k for k, v in JOBS.items() if v["kind"] in ("md", "opt")]
+OPTION_JOBS = [k for k in JOBS if k.startswith("disp_") or k in ("am1_dimer_cutoff", "am1_h2o_hfflag", "am1_h2o_noeig",
+                                                                 "pm3_h2o_altparams", "am1_h2o_learned")]
+DISP_JOBS = [k for k in JOBS if k.startswith("disp_")]
 RAISE_JOBS = [k for k, v in JOBS.items() if v.get("expect") == "raises"]
 
 
@@ -115,12 +159,21 @@ def eps_eff(job):
     return e, A
 
 
+def _mol_names(job):
+    spec = JOBS[job]
+    m = spec["mol"]
+    if spec.get("dimer"):
+        return [m[0]]
+    if spec.get("dimer_batch"):
+        return [x[0] for x in m]
+    return m if isinstance(m, list) else [m]
+
+
 def elements(job):
     from vlib import gen
 
-    m = JOBS[job]["mol"]
     out = set()
-    for n in (m if isinstance(m, list) else [m]):
+    for n in _mol_names(job):
         out |= set(gen.molecule(n)[0])
     return sorted(out)
 
@@ -128,16 +181,39 @@ def elements(job):
 # ---------------------------------------------------------------------------------------------------
 # child side
 # ---------------------------------------------------------------------------------------------------
+def _dimer(name, shift, g, sigma):
+    """two copies of a library molecule, the second displaced by `shift` (A) and re-oriented; atoms sorted by Z"""
+    from vlib import gen
+
+    Z, X, q, m = gen.molecule(name)
+    X1 = gen.distort(X, g, sigma=sigma)
+    X2 = gen.distort(X, g, sigma=sigma) @ gen.haar(g).T
+    X2 = X2 - X2.mean(axis=0) + X1.mean(axis=0) + np.asarray(shift, float)
+    ZZ = list(Z) + list(Z)
+    XX = np.vstack([X1, X2])
+    order = sorted(range(len(ZZ)), key=lambda i: -ZZ[i])
+    return [ZZ[i] for i in order], XX[order], 0, 1
+
+
 def _geometry(job):
     from vlib import gen
 
     spec = JOBS[job]
-    names = spec["mol"] if isinstance(spec["mol"], list) else [spec["mol"]]
+    sigma = spec.get("sigma", 0.05)
+    if spec.get("dimer"):
+        items = [spec["mol"]]
+    elif spec.get("dimer_batch"):
+        items = spec["mol"]
+    else:
+        items = spec["mol"] if isinstance(spec["mol"], list) else [spec["mol"]]
     mols = []
-    for i, n in enumerate(names):
-        Z, X, q, m = gen.molecule(n)
+    for i, n in enumerate(items):
         g = np.random.default_rng(1000 * spec["gs"] + i)
-        X = gen.distort(X, g, sigma=0.05)
+        if isinstance(n, list):
+            Z, X, q, m = _dimer(n[0], n[1], g, sigma)
+        else:
+            Z, X, q, m = gen.molecule(n)
+            X = gen.distort(X, g, sigma=sigma)
         X = X @ gen.generic_rotation(X, g).T
         mols.append((Z, X, q, m))
     if len(mols) == 1:
@@ -189,6 +265,13 @@ def _snapshot():
                           ("two_elec._PM6_D_PARAM_CACHE", TE, "_PM6_D_PARAM_CACHE")):
         if hasattr(mod, attr):
             snap["cache " + nm] = len(getattr(mod, attr))
+    # any other module-level container that looks like a cache (upper-case private name), wherever it lives
+    for mn, mod in list(sys.modules.items()):
+        if not mn.startswith("seqm") or mod is None:
+            continue
+        for an, av in list(vars(mod).items()):
+            if an.startswith("_") and an.upper() == an and len(an) > 3 and isinstance(av, (dict, list, set)):
+                snap.setdefault("cache %s.%s" % (mn.replace("seqm.seqm_functions.", ""), an), len(av))
     snap["torch.default_dtype"] = str(torch.get_default_dtype())
     snap["torch.grad_enabled"] = torch.is_grad_enabled()
     snap["module constant scf_loop.MAX_ITER"] = getattr(SL, "MAX_ITER", None)
@@ -289,7 +372,8 @@ def _learned_for(job):
     els = [0] + sorted(set(Z))
     p = params(method=spec["sett"]["method"], elements=els, root_dir=os.path.dirname(seqm.basics.__file__) + "/params/",
                parameters=names)
-    mine = {n: p[torch.tensor(Z), i].detach().clone().requires_grad_(True) for i, n in enumerate(names)}
+    sc = float(spec.get("learned_scale", 1.0))
+    mine = {n: (sc * p[torch.tensor(Z), i]).detach().clone().requires_grad_(spec["kind"] == "grad") for i, n in enumerate(names)}
     return dict(mine), mine
 
 
@@ -312,6 +396,30 @@ def _forward_grad_job(job, sett, driver):
     return L, inputs, mol, en, arrays
 
 
+def _alt_param_dir(spec, scratch):
+    """a parameter directory whose table differs from the shipped one in a single number (written once per process)"""
+    import seqm.basics
+
+    method = spec["sett"]["method"]
+    d = os.path.join(scratch, "altparams_%s_%d" % (method, os.getpid())) + "/"
+    fn = "parameters_%s_MOPAC.csv" % method
+    if not os.path.exists(d + fn):
+        os.makedirs(d, exist_ok=True)
+        src = os.path.join(os.path.dirname(seqm.basics.__file__), "params", fn)
+        lines = open(src).read().splitlines()
+        header = lines[0].replace(" ", "").split(",")
+        col = header.index(spec["altparams"]["column"])
+        out = [lines[0]]
+        for ln in lines[1:]:
+            t = ln.split(",")
+            if t[0].strip() == str(spec["altparams"]["Z"]):
+                t[col] = repr(float(t[col]) + spec["altparams"]["delta"])
+            out.append(",".join(t))
+        with open(d + fn, "w") as f:
+            f.write("\n".join(out) + "\n")
+    return d
+
+
 def _run_job(job, reuse, reg, scratch, idx, extra):
     import torch
 
@@ -326,12 +434,18 @@ def _run_job(job, reuse, reg, scratch, idx, extra):
     els = elements(job)
     if (info["driver_reused"] or info["engine_reused"]) and not set(els) <= set(info["driver_elements"] or []):
         extra["driver_reused_with_new_elements"] = True
+    if spec.get("altparams"):
+        sett["parameter_file_dir"] = _alt_param_dir(spec, scratch)
     if kind == "sp":
-        mol = _build(job, sett)
+        learned = _learned_for(job)[0] if spec.get("learned") else None
+        mol = _build(job, sett, learned=dict(learned) if learned else None)
         es = driver if driver is not None else Electronic_Structure(sett)
         if driver is None and reuse != "none":
             ent["driver"], ent["driver_for"] = es, sorted(set(sett.get("elements", els)) - {0})
-        es(mol)
+        if learned:
+            es(mol, learned_parameters=dict(learned))
+        else:
+            es(mol)
         _harvest(mol, es, arrays)
         if spec.get("restart"):
             es(mol, P0=mol.dm)
@@ -377,7 +491,10 @@ def _run_job(job, reuse, reg, scratch, idx, extra):
                          Temp=spec["Temp"], output=out)
         if reuse == "engine" and not info["engine_reused"]:
             ent["engine"], ent["driver_for"] = md, sorted(set(sett.get("elements", els)) - {0})
-        md.run(mol, spec["steps"], seed=spec["seed"])
+        kw = {}
+        for k, v in (spec.get("run_kw") or {}).items():
+            kw[k] = tuple(v) if isinstance(v, list) else v
+        md.run(mol, spec["steps"], seed=spec["seed"], **kw)
         arrays["md_x"] = _npy(mol.coordinates)
         arrays["md_v"] = _npy(mol.velocities)
         arrays["Etot"] = _npy(mol.Etot)
